@@ -218,7 +218,7 @@ func (t *TupleType) Get(key string) (value px.Value, ok bool) {
 func (t *TupleType) IsAssignable(o px.Type, g px.Guard) bool {
 	switch o := o.(type) {
 	case *ArrayType:
-		if !GuardedIsInstance(t.givenOrActualSize, integerValue(o.size.Min()), g) {
+		if !t.givenOrActualSize.IsAssignable(o.size, g) {
 			return false
 		}
 		top := len(t.types)
@@ -234,23 +234,33 @@ func (t *TupleType) IsAssignable(o px.Type, g px.Guard) bool {
 		return true
 
 	case *TupleType:
-		if !(t.size == nil || GuardedIsInstance(t.size, integerValue(o.givenOrActualSize.Min()), g)) {
+		if !t.givenOrActualSize.IsAssignable(o.givenOrActualSize, g) {
 			return false
 		}
 
 		if len(t.types) > 0 {
 			top := len(o.types)
 			if top == 0 {
-				return t.givenOrActualSize.min == 0
+				// other accepts elements of any type
+				return o.givenOrActualSize.max == 0
 			}
 
+			// the last type of either tuple repeats for the remaining positions
 			last := len(t.types) - 1
+			oLast := top - 1
+			if top <= last {
+				top = last + 1
+			}
 			for idx := 0; idx < top; idx++ {
 				myIdx := idx
 				if myIdx > last {
 					myIdx = last
 				}
-				if !GuardedIsAssignable(t.types[myIdx], o.types[idx], g) {
+				oIdx := idx
+				if oIdx > oLast {
+					oIdx = oLast
+				}
+				if !GuardedIsAssignable(t.types[myIdx], o.types[oIdx], g) {
 					return false
 				}
 			}
